@@ -98,6 +98,8 @@ class Trace:
         self.run()
 
     def fail(self, prop, what, fp=None):
+        if getattr(self, "_abstain", False):
+            return
         if prop not in self.viol:
             self.viol[prop] = what
             if fp:
@@ -120,12 +122,22 @@ class Trace:
         accepted = [0, 0]      # streams handed to the accepting application of each endpoint
         connect_at = {}        # (e, fid) -> label at which e last sent Connect fid
         stale = [False, False] # endpoint e received a Reset/Acknowledge sent before its current Connect of that id
+        adversarial = False    # the harness has played a misbehaving peer (Inject): the conformance predicates abstain from then on
+        throttled = [False, False]  # the endpoint's sink has been throttled (Permits): frames may sit in its queue
+        connects = {}          # fid -> number of Connect frames seen for it (either side)
+        reused = set()         # ids connected more than once: the per-stream predicates (C02, C03, C05) abstain there,
+                               # because pairing the two ends' incarnations from the outside is not reliable; reuse is C06/C07's subject
         for k, l in enumerate(self.labels):
             if k >= len(self.outs) or self.outs[k][0] is None:
                 break
             res, wakes, wa, wb, done = self.outs[k]
             op = l[0]
             emitted = [parse_msgs(wa), parse_msgs(wb)]
+            if op == 27:
+                adversarial = True
+                self._abstain = True
+            if op == 29 and len(l) > 1 and l[1] in (0, 1):
+                throttled[l[1]] = True
             if op == 27 and res == [0]:
                 # a message put on the link towards endpoint l[1] by the harness (an adversarial peer)
                 if l[2] == 0:
@@ -155,6 +167,9 @@ class Trace:
                     if em[0] == 'frame':
                         if em[1] == 0:
                             connect_at[(e, em[2])] = k
+                            connects[em[2]] = connects.get(em[2], 0) + 1
+                            if connects[em[2]] > 1:
+                                reused.add(em[2])
                             # a new incarnation of this id: restart its accounting
                             for key in [(em[2], 0), (em[2], 1)]:
                                 pushes.pop(key, None)
@@ -162,7 +177,7 @@ class Trace:
                         elif em[1] == 4:
                             key = (em[2], e)
                             pushes[key] = pushes.get(key, 0) + 1
-                            if pushes[key] - acked.get(key, 0) > rwnd[1 - e]:
+                            if em[2] not in reused and pushes[key] - acked.get(key, 0) > rwnd[1 - e]:
                                 self.fail('C03', "label %d: endpoint %d has %d unacknowledged Push frames on flow %d, the peer's window is %d"
                                           % (k, e, pushes[key] - acked.get(key, 0), em[2], rwnd[1 - e]))
                         elif em[1] == 1 and op == 15:
@@ -170,7 +185,7 @@ class Trace:
                             key = (em[2], 1 - e)
                             n = (em[3][0] << 24 | em[3][1] << 16 | em[3][2] << 8 | em[3][3]) if len(em[3]) >= 4 else 0
                             acked[key] = acked.get(key, 0) + n
-                            if acked[key] > pushes.get(key, 0):
+                            if em[2] not in reused and acked[key] > pushes.get(key, 0):
                                 self.fail('C03', "label %d: endpoint %d has acknowledged %d frames on flow %d but only %d were sent to it"
                                           % (k, e, acked[key], em[2], pushes.get(key, 0)))
                     link[e].append((em, k))
@@ -215,7 +230,7 @@ class Trace:
                         fid, inc = fid_of[(e, sid)]
                         written.setdefault((fid, inc, e), []).extend(data)
                     np = [m for m in emitted[e] if m[0] == 'frame' and m[1] == 4]
-                    if len(np) != 1 or list(np[0][3]) != list(data):
+                    if not throttled[e] and (len(np) != 1 or list(np[0][3]) != list(data)):
                         self.fail('C03', "label %d: a successful write put %d Push frames on the wire (expected exactly one carrying its bytes)" % (k, len(np)))
                 elif res[:1] in ([1], [2]):
                     if any(m[0] == 'frame' and m[1] == 4 for m in emitted[e]):
@@ -229,10 +244,12 @@ class Trace:
                         ro = readout.setdefault((fid, inc, e), [])
                         ro.extend(got)
                         wr = written.get((fid, inc, 1 - e), [])
-                        if ro != wr[:len(ro)]:
+                        if fid in reused:
+                            pass
+                        elif ro != wr[:len(ro)]:
                             self.fail('C02', "label %d: bytes read on endpoint %d stream %d (flow %d) are not a prefix of the bytes written by the peer"
                                       % (k, e, sid, fid))
-                        if n > 0 and not got:
+                        if n > 0 and not got and fid not in reused:
                             # end-of-stream
                             if (e, fid) not in got_end and not ended[e]:
                                 self.fail('C05', "label %d: read on endpoint %d stream %d returns end-of-stream although the peer neither finished nor aborted flow %d and the connection has not ended"
